@@ -349,25 +349,28 @@ func ReadFromTTML(i io.Reader) (o *Subtitles, err error) {
 	o.Metadata = ttml.metadata()
 
 	// Loop through styles
-	var parentStyles = make(map[string]*Style)
 	for _, ts := range ttml.Styles {
 		var s = &Style{
 			ID:          ts.ID,
 			InlineStyle: ts.TTMLInStyleAttributes.styleAttributes(),
 		}
 		o.Styles[s.ID] = s
-		if len(ts.Style) > 0 {
-			parentStyles[ts.Style] = s
-		}
 	}
 
 	// Take care of parent styles
-	for id, s := range parentStyles {
-		if _, ok := o.Styles[id]; !ok {
-			err = fmt.Errorf("astisub: Style %s requested by style %s doesn't exist", id, s.ID)
+	// Several styles may have the same parent style
+	for _, ts := range ttml.Styles {
+		if len(ts.Style) == 0 {
+			continue
+		}
+		parent, ok := o.Styles[ts.Style]
+		if !ok {
+			err = fmt.Errorf("astisub: Style %s requested by style %s doesn't exist", ts.Style, ts.ID)
 			return
 		}
-		s.Style = o.Styles[id]
+		if s, ok := o.Styles[ts.ID]; ok {
+			s.Style = parent
+		}
 	}
 
 	// Loop through regions
